@@ -81,7 +81,8 @@ void init_poles(FT pole[2], int& npoles, FT& weight, const int order) {
 template<typename FT>
 void spline_filter1d(numpy::aligned_array<FT> array, const int order, const int axis) {
     gil_release nogil;
-    const FT log_tolerance = -16.;
+    // natural logarithm of the relative truncation error accepted for the initialisation sums (1e-16)
+    const FT log_tolerance = std::log(FT(1e-16));
     if (axis >= array.ndims()) {
         throw PythonException(PyExc_RuntimeError, "Unexpected state.");
     }
